@@ -1,2 +1,58 @@
-From SV Require Import Convert.
-Theorem C16_placeholder : True. Proof. exact I. Qed.
+(* C16 - SM to SSC conversion keeps every property, chart, timing and note.  Statements only.
+   "Source and templates unmodified, no shared mutable object" cannot be expressed over immutable
+   values: that clause, TimingData equality through the library's readers and the reload are the
+   correspondence check's claims (see DESIGN.md). *)
+From Coq Require Import List ZArith NArith Bool.
+From SV Require Import Sx Str Omap Beat Simfile TimingSrc Convert Generated.Tables Proofs.ConvertFacts.
+Import ListNotations.
+Open Scope Z_scope.
+
+Theorem C16_conversion : forall sf charts tmpl_sf tmpl_chart,
+  NoDupKeys sf -> (forall c, List.In c charts -> NoDupKeys c) -> sm_negative_timing sf = COk false ->
+  let base := base_of Tables.blank_ssc_simfile tmpl_sf in
+  let ct := chart_tmpl_of Tables.blank_ssc_chart tmpl_chart in
+  exists out cs,
+    sm_to_ssc sf charts tmpl_sf tmpl_chart = COk (out, snd base ++ cs) /\
+    (forall k v, get k sf = Some v -> get k out = Some v) /\
+    (forall k, get k sf = None -> get k out = get k (fst base)) /\
+    length cs = length charts /\
+    (forall i c, nth_error charts i = Some c -> exists c', nth_error cs i = Some c' /\
+       (forall k v, get k c = Some v -> get k c' = Some v) /\
+       (forall k, get k c = None -> get k c' = get k ct)).
+Proof. exact sm_to_ssc_spec. Qed.
+Print Assumptions C16_conversion.
+
+Theorem C16_negative_refused : forall sf charts tmpl_sf tmpl_chart,
+  sm_negative_timing sf = COk true -> sm_to_ssc sf charts tmpl_sf tmpl_chart = CNotImpl.
+Proof. exact sm_to_ssc_negative_refused. Qed.
+Print Assumptions C16_negative_refused.
+
+(* timing keys reach the result unchanged, so the library's readers see the same strings: every
+   timing key of the source is a property of the source *)
+Theorem C16_timing_strings_kept : forall sf charts tmpl_sf tmpl_chart out cs key v,
+  NoDupKeys sf -> sm_to_ssc sf charts tmpl_sf tmpl_chart = COk (out, cs) -> get key sf = Some v -> get key out = Some v.
+Proof.
+  intros sf charts tmpl_sf tmpl_chart out cs key v Hnd H G.
+  unfold sm_to_ssc, convert_core in H. destruct (sm_negative_timing sf) as [[|]| | | |]; try discriminate.
+  destruct ssc_tables_empty as [E1 _].
+  destruct (copy_props Tables.invalid_ssc_simfile [] None sf _) as [o| | | |] eqn:Eo; try discriminate.
+  destruct (convert_charts _ _ _ _ charts); try discriminate. cbn [lift_charts] in H. inversion H; subst.
+  apply (proj1 (copy_get_all _ E1 sf _ out Hnd Eo)). exact G.
+Qed.
+Print Assumptions C16_timing_strings_kept.
+
+(* the blank templates supply no non-empty chart timing value: so a chart of the result never
+   becomes its own timing source *)
+Theorem C16_blank_chart_has_no_timing : chart_has_timing Tables.blank_ssc_chart = false.
+Proof. vm_compute. reflexivity. Qed.
+
+Definition s (l : list N) : str := l.
+Example C16_example :
+  let sf := [(kOFFSET, Some (s [48])); (kBPMS, Some (s [48;61;49;50;48])); (kSTOPS, Some (s [])); (s [88], Some (s [121]))]%N in
+  let ch := [(s [83;84;69;80;83;84;89;80;69], Some (s [97])); (kNOTES, Some (s [48;48]))]%N in
+  match sm_to_ssc sf [ch] None None with
+  | COk (out, [c]) => andb (str_eqb (match get (s [88])%N out with Some (Some x) => x | _ => [] end) [121]%N)
+                           (str_eqb (match get kNOTES c with Some (Some x) => x | _ => [] end) [48;48]%N)
+  | _ => false end = true /\
+  sm_to_ssc [(kBPMS, Some (s [48;61;45;49]))]%N [] None None = CNotImpl.
+Proof. vm_compute. split; reflexivity. Qed.
